@@ -37,8 +37,9 @@ Definition proved_items : list (string * string) :=
    ("Attribute::Rfc822", "AttributeValue::Rfc822"); ("Attribute::Rfc822Size", "AttributeValue::Rfc822Size");
    ("Attribute::Rfc822Text", "AttributeValue::Rfc822Text"); ("Attribute::Uid", "AttributeValue::Uid");
    ("Attribute::GmailMsgId", "AttributeValue::GmailMsgId"); ("Attribute::Flags", "AttributeValue::Flags");
-   ("Attribute::InternalDate", "AttributeValue::InternalDate"); ("Attribute::GmailLabels", "AttributeValue::GmailLabels")].
-Definition not_yet_proved : list string := ["Attribute::Body"].
+   ("Attribute::InternalDate", "AttributeValue::InternalDate"); ("Attribute::GmailLabels", "AttributeValue::GmailLabels");
+   ("Attribute::Body", "AttributeValue::BodyStructure")].
+Definition not_yet_proved : list string := [].
 
 Lemma items_partition :
   forallb (fun a => existsb (String.eqb a) (map fst proved_items ++ not_yet_proved)) builder_attrs = true.
